@@ -4,8 +4,12 @@ from props import common
 
 ID = "C01"
 LEVEL = "proof"
+LEVEL_TEXT = "Theorems in Lean 4 over the executable model: zero is a two-sided identity, + is commutative and associative on states of one live tree, merge is a homomorphism for fill, fill-of-concatenation equals merge of fills, and partition invariance for every list of chunks and every reduction schedule (unbounded trees, streams, partitions, schedules); the model is tied to /repo on every run by a differential correspondence run over generated partitions/schedules, which also evaluates the theorems' hypotheses on the reached states."
+LEVEL_NOTE = 'Exact-rational arithmetic with nan/+-inf (IEEE rounding of sums/means/variances is the declared gap); hypotheses good/hasTmpl/noBins/sameBase/goodRun are executable and checked on the real runs; model-to-code tie is differential (harness), not a translation.'
+TECHNIQUE = 'Lean 4 proof over a hand-written model + model/implementation correspondence + implementation-level oracle'
 LEAN_MODULE = "Hg.Props.C01"
-THEOREMS = []  # filled in below once Hg/Props/C01.lean is in the build
+THEOREMS = ["Hg.C01.add_zero_right", "Hg.C01.add_zero_left", "Hg.C01.add_comm", "Hg.C01.add_assoc", "Hg.C01.fill_add_hom",
+            "Hg.C01.fillAll_append", "Hg.C01.partition_invariant"]
 CASES = {"quick": 320, "thorough": 12000}
 RULE = ("random tree spec (all 19 primitives, depth<=3), stream of <=14 weighted records over the tree's critical values "
         "incl. NaN/+-inf and gate weights, random partition into 1..5 chunks (empty ones allowed), random reduction "
@@ -80,6 +84,16 @@ def build(p):
     for i, op in enumerate(ops):
         if op[0] == "add":
             expect.append(("noraise", i, "merging partial results of one tree must not raise"))
+    # the hypotheses of the C01 theorems, evaluated on the model's copies of these very states
+    ops.append(("new", "zf", spec))
+    for name in ("iszero", "hastmpl", "nobins", "good"):
+        ops.append(("mcheck", [name, "zf"], True))
+    ops.append(("mcheck", ["goodrun", "zf", stream], True))
+    for c in chunks:
+        ops.append(("mcheck", ["goodrun", "zf", c], True))
+    for i in range(k):
+        ops.append(("mcheck", ["good", "p%d" % i], True))
+        ops.append(("mcheck", ["samebase", "p0", "p%d" % i], True))
     return {"ops": ops, "expect": expect}
 
 
